@@ -509,6 +509,31 @@ def check_reader_totality(ctx, P, rule="E9.reader-total"):
     ctx.floor(rule, "(hand-written tagged reader, tag) pairs", n, 5)
 
 
+def check_serialize_total(ctx, P, rule="E9.serialize-total"):
+    """The compact serde form is positional (serde_bare): a struct serializer must write every field on every path.
+    In each Serialize impl that uses SerializeStruct / SerializeTuple*, no field is skipped (`skip_field`, i.e.
+    `skip_serializing_if`) and every field write dominates the closing `end` call."""
+    n = 0
+    for k, f in sorted(P.fns.items()):
+        if not (f.impl_trait == "Serialize" and f.name == "serialize"):
+            continue
+        ev = evaluate(f)
+        writes = [(b, s_) for b, s_ in sorted(ev.sites.items()) if s_.callee[0].split("::")[-1] in ("serialize_field", "serialize_element") and s_.callee[0].split("::")[0].startswith("Serialize")]
+        ends = [b for b, s_ in sorted(ev.sites.items()) if s_.callee[0].split("::")[-1] == "end" and s_.callee[0].split("::")[0].startswith("Serialize")]
+        skips = [b for b, s_ in sorted(ev.sites.items()) if s_.callee[0].split("::")[-1] == "skip_field"]
+        if not writes and not skips:
+            continue
+        n += 1
+        # a write inside a loop (sequence elements) is exempt from the dominance test
+        cfg = f.cfg
+        inloop = set()
+        for src, h in cfg.back_edges():
+            inloop |= set(cfg.natural_loop(src, h))
+        cond = [b for b, _ in writes if b not in inloop and ends and not any(cfg.dominates(b, e) for e in ends)]  # enum: one `end` per variant arm
+        ctx.ob(rule, k, not skips and not cond, "%s writes %d field(s)%s%s" % (k, len(writes), "" if not skips else "; %d field(s) can be SKIPPED (skip_serializing_if): the positional compact form loses them" % len(skips), "" if not cond else "; %d field write(s) are conditional" % len(cond)), where=where(f, (skips or cond or [None])[0]))
+    ctx.floor(rule, "struct/tuple serializers", n, 6)
+
+
 def check_delegations(ctx, P, rule="E9.delegate"):
     """The macro-derived container conversions delegate to the primary pair without touching the bytes."""
     n = 0
